@@ -605,7 +605,7 @@ class ReadPhaseSpace(Contract):
     name = 'vfps::HDF5File::readPhaseSpace'
     tu = 'src/IO/HDF5File.cpp'
     params = ['fname', 'qmin', 'qmax', 'pmin', 'pmax', 'oclh', 'Qb', 'Ib_unscaled', 'bl', 'dE', 'use_step']
-    tags = {'C17', 'C10'}
+    tags = {'C17', 'C10', 'C11'}
     ghosts = {'k': 'int', 'n': 'int', 'x': 'int'}
     aux_tus = [('src/PS/PhaseSpace.cpp', 'vfps::')]
     RANK = 'ghost.h5.rank'
@@ -651,8 +651,11 @@ class ReadPhaseSpace(Contract):
             a = st.array(p.region, '', U64)
             kk = z3.Int('k!dims')
             # extents are non-negative 64-bit numbers
-            ex.elem_inv[(p.region, '')] = lambda s_, k_, v_: And(v_ >= 0, v_ < 2 ** 64)
+            ex.elem_inv[(p.region, '')] = lambda s_, k_, v_: And(v_ >= 0, v_ < 2 ** 48)       # extents of a real dataset (HDF5 cannot address more)
             ex.logw(('r', p.region))
+            for i_ in range(4):
+                st.scal[f'ghost.h5.dim{i_}'] = IntV(z3.Select(a, i_), U64)
+                st.assume(And(z3.Select(a, i_) >= 0, z3.Select(a, i_) < (2 ** 48 if i_ == 0 else 2 ** 31)))     # record count / per-record extents of a real file
             return rank_of(st)
 
         def space_ctor(ex, n, st, objn, argn, this_override=None):
@@ -664,15 +667,49 @@ class ReadPhaseSpace(Contract):
                     ex.safe(st, 'h5-dataspace-dims', And(r.t >= 0, z3.BoolVal(p.region is not None) if True else True,
                                                          (st.len_of(p.region) >= p.off + r.t) if p.region is not None else (r.t == 0)),
                             'H5::DataSpace(rank, dims): dims must hold rank entries')
+                    if p.region is not None:
+                        st.scal['ghost.h5.memspace_points'] = IntV(prod_of(st, p, r.t), parse_type_str('long'))
+                        ex.logw(('s', 'ghost.h5.memspace_points'))
             return ObjRef(this_override or 'tmp:space', 'H5::DataSpace')
+
+        def prod_of(st, p, r):
+            # product of the first r entries (r is 3 or 4 on every path that gets here; other ranks were refused)
+            a = st.array(p.region, '', U64)
+            e = [z3.Select(a, p.off + i_) for i_ in range(4)]
+            return If(r == 3, e[0] * e[1] * e[2], If(r == 4, e[0] * e[1] * e[2] * e[3], z3.Int('h5.points.other_rank')))
 
         def hyperslab(ex, n, st, objn, argn, this_override=None):
             r = rank_of(st).t
+            ptrs = []
             for a in argn[1:3]:
                 p = ex.ev(a, st)
+                ptrs.append(p)
                 if isinstance(p, PtrV):
                     ex.safe(st, 'h5-hyperslab-arrays', (st.len_of(p.region) >= p.off + r) if p.region is not None else (r == 0),
                             'selectHyperslab(count, start): both arrays must hold one entry per dimension of the file data space')
+            cnt, start = ptrs
+            if isinstance(cnt, PtrV) and cnt.region is not None and isinstance(start, PtrV) and start.region is not None:
+                # H5S_SELECT_SET with count/start only: prod(count) points, beginning at start
+                st.scal['ghost.h5.selected_points'] = IntV(prod_of(st, cnt, r), parse_type_str('long'))
+                a_s, a_c = st.array(start.region, '', U64), st.array(cnt.region, '', U64)
+                for i_ in range(4):
+                    st.scal[f'ghost.h5.start{i_}'] = IntV(z3.Select(a_s, start.off + i_), U64)
+                    st.scal[f'ghost.h5.count{i_}'] = IntV(z3.Select(a_c, cnt.off + i_), U64)
+                    ex.logw(('s', f'ghost.h5.start{i_}')); ex.logw(('s', f'ghost.h5.count{i_}'))
+                ex.logw(('s', 'ghost.h5.selected_points'))
+            return VoidV()
+
+        def read_into(ex, n, st, objn, argn, this_override=None):
+            # DataSet::read(buf, type, memspace, filespace): writes as many elements as the memory space holds into buf
+            p = ex.ev(argn[0], st)
+            ms = st.scal.get('ghost.h5.memspace_points')
+            if not isinstance(p, PtrV) or p.region is None or ms is None:
+                raise ExtractionError('readPhaseSpace: DataSet::read with an unknown buffer or memory space')
+            ex.safe(st, 'h5-read-fits-buffer', And(p.off >= 0, p.off + ms.t <= st.len_of(p.region)), 'the memory data space handed to DataSet::read must not be larger than the buffer')
+            st.havoc_region(p.region)
+            ex.logw(('r', p.region))
+            st.scal['ghost.h5.read_done'] = IntV(I(1), parse_type_str('int'))
+            ex.logw(('s', 'ghost.h5.read_done'))
             return VoidV()
 
         def set_size(ex, n, st, objn, argn, this_override=None):
@@ -687,9 +724,12 @@ class ReadPhaseSpace(Contract):
 
         def npoints(ex, n, st, objn, argn, this_override=None):
             from vf.state import State
-            v = State.fresh('h5.selected_points', z3.IntSort())
-            st.assume(v >= 0)
-            return IntV(v, parse_type_str('long'))
+            v = st.scal.get('ghost.h5.selected_points')
+            if v is None:
+                t = State.fresh('h5.selected_points', z3.IntSort())
+                st.assume(t >= 0)
+                return IntV(t, parse_type_str('long'))
+            return IntV(v.t, parse_type_str('long'))
 
         def assign_dispatch(ex, n, st, objn, argn, this_override=None):
             t = (objn.get('type', {}).get('desugaredQualType') or objn.get('type', {}).get('qualType', ''))
@@ -748,7 +788,7 @@ class ReadPhaseSpace(Contract):
             if rt.kind == 'float':
                 return RealV(State.fresh('h5.result', z3.RealSort()), rt)
             return ObjRef('tmp:h5', 'H5::Object')
-        return {'*lib:H5::': h5_any, 'read': h5_any, 'ctor:H5::H5File': opaque_obj, 'ctor:H5::DataSet': opaque_obj, 'ctor:H5::DataType': opaque_obj, 'ctor:H5::DataSpace': space_ctor,
+        return {'*lib:H5::': h5_any, 'read': read_into, 'ctor:H5::H5File': opaque_obj, 'ctor:H5::DataSet': opaque_obj, 'ctor:H5::DataType': opaque_obj, 'ctor:H5::DataSpace': space_ctor,
                 'openDataSet': opaque_obj, 'getSpace': opaque_obj, 'getSimpleExtentNdims': ndims, 'getSimpleExtentDims': extent_dims,
                 'selectHyperslab': hyperslab, 'getSelectNpoints': npoints, 'H5check_version': noop, 'H5open': noop,
                 'setSize': set_size, 'operator=': assign_dispatch,
@@ -760,7 +800,25 @@ class ReadPhaseSpace(Contract):
         r = cx.ret
         if not isinstance(r, ObjRef):
             return [('returns_phase_space', {'C17'}, z3.BoolVal(False))]
-        return [('single_bunch', {'C17', 'C10'}, nb == 1),
+        sc = cx.st.scal
+        g = lambda nm: sc[nm].t if nm in sc else None
+        rank = g(self.RANK)
+        d0, d1, d2 = g('ghost.h5.dim0'), g('ghost.h5.dim1'), g('ghost.h5.dim2')
+        extra = []
+        if None not in (rank, d0, d1, d2, g('ghost.h5.start0'), g('ghost.h5.count0')):
+            us = cx.a('use_step')
+            want = If(us >= 0, us, us + d0)          # use_step counts from the end when negative (-1: the last record)
+            fsize = If(rank == 3, d1, d2)
+            extra = [('requested_record_selected', {'C11'}, Implies(And(us >= -d0, us < d0), And(g('ghost.h5.start0') == want, g('ghost.h5.count0') == 1,
+                                                                                             g('ghost.h5.start1') == 0, g('ghost.h5.start2') == 0))),
+                     # for the square grids Inovesa writes (both grid extents equal) the whole record is selected
+                     ('whole_record_selected', {'C11'}, If(rank == 3, Implies(d1 == d2, And(g('ghost.h5.count1') == d1, g('ghost.h5.count2') == d2)),
+                                                           Implies(d2 == g('ghost.h5.dim3'), And(g('ghost.h5.count1') == d1, g('ghost.h5.count2') == d2,
+                                                                                                 g('ghost.h5.count3') == g('ghost.h5.dim3'), g('ghost.h5.start3') == 0)))),
+                     ('multi_bunch_file_refused', {'C11', 'C17'}, Implies(rank == 4, d1 == 1)),
+                     ('grid_size_of_file', {'C11', 'C17'}, And(nx == fsize, ny == fsize)),
+                     ('data_read', {'C11'}, z3.BoolVal('ghost.h5.read_done' in sc))]
+        return extra + [('single_bunch', {'C17', 'C10', 'C11'}, nb == 1),
                 ('charge_and_current_of_this_run', {'C10'}, And(cx.rf(r.name + '.charge') == cx.a('Qb'), cx.rf(r.name + '.current') == cx.a('Ib_unscaled'))),
                 ('shape', {'C17'}, declare_ps(cx, r.name))]
 
